@@ -1,4 +1,5 @@
 import PysnarkModel.Lemmas.Bits
+import PysnarkModel.Gen.Api
 import PysnarkModel.Lemmas.Pack
 import PysnarkModel.Driver.ProtoPack
 /-!
@@ -204,5 +205,13 @@ example : (match ProtoPack.schema? "L(B,M5,R2(M3))" with
       (match (do let b ← packB sch v; let r ← unpackV sch b 0; pure (b.length, r)) (St.init 97 8 8) with
         | .ok ((n, r), s) => r.same v && n == sch.bitlen && n == 8 && s.cons.length == 0 | _ => false)
     | none => false) = true := by decide +kernel
+
+
+/-- **API surface pinned** (regenerated from the source on every run, `Gen/Api.lean`): the methods the model of this
+property transcribes are exactly the methods the code has.  A method added to the code (say an in-place `__iadd__`, which
+Python would prefer over the `__add__` the model knows) or removed from it changes the generated list and this obligation
+fails: the tie is then broken by construction and the check runs its extended search. -/
+theorem C16_api_surface :
+    Gen.api_pack = ["PackBool.random", "PackBool.bitlen", "PackBool.pack", "PackBool.unpack", "PackIntMod.__init__", "PackIntMod.random", "PackIntMod.bitlen", "PackIntMod.pack", "PackIntMod.unpack", "PackList.__init__", "PackList.random", "PackList.bitlen", "PackList.pack", "PackList.unpack", "PackRepeat.__init__", "PackRepeat.random", "PackRepeat.bitlen", "PackRepeat.pack", "PackRepeat.unpack", "PackSeed"] := rfl
 
 end Pysnark
